@@ -193,10 +193,11 @@ func init() { register("C15", checkC15) }
 func checkC15(c *Ctx) {
 	r := c.RNG
 	res := c.Res
-	res.Rule = "seven streams: (1) integers of every width as canonical text and as Go literals (bases 2/8/10/16, prefixes, separators, signs) at and around every range boundary through parse.String; " +
+	res.Rule = "eight streams: (1) integers of every width as canonical text and as Go literals (bases 2/8/10/16, prefixes, separators, signs) at and around every range boundary through parse.String; " +
 		"(2) integer slices (sizes 0-40) through the flag helpers' String()/Set() incl. blank-padded and prefixed elements; (3) string slices, sets, string maps and string-to-string-slice maps (sizes 0-40; strings with commas, colons, quotes, backslashes, control and non-ASCII characters) " +
 		"through the flag helpers, the real scanner's token stream fed to the Lean state machines; (4) floats incl. extremes/denormals/infinities, complex, bool, duration, strings (oracle only); (5) arbitrary text into the collection parsers (token stream vs state machines); " +
 		"(6) []S and map[K]V over every scalar kind (bool, string, ten integer kinds, float32/64, complex64/128; values incl. the extremes) through parse.String, with one out-of-range element in 15% (oracle only); (7) complex64/128 through parse.Complex*, parse.String and the flag helpers' Complex*Var.Set, canonical and out-of-range (oracle only). " +
+		"(8) result ownership: parse a collection text (40% the empty text), write into the result, parse the same text again: the second result must be what the first was (oracle only). " +
 		"non-trivial: (1) literal within 2 of a range boundary or with prefix/separator, (2,3) size >= 2, (4) non-zero finite, (5) at least 2 tokens; distinct = by input text"
 	n1, n2, n3, n4, n5 := c.scale(8000, 700000), c.scale(2500, 200000), c.scale(5000, 500000), c.scale(3000, 300000), c.scale(4000, 300000)
 
